@@ -177,7 +177,14 @@ func runC18(c *Ctx) {
 				c.check(isResultOfCall(s.Val, get, 0), rule2, p.FnName(s.Parent())+" gives the accepted connection the looked-up address", p.instrPos(s), "", "SnowflakeClientConn.address is not the value returned by clientIDAddrMap.Get for this session")
 			}
 			if n == 0 {
-				c.undecided(rule2, "SnowflakeClientConn.address stores", "-", "none found")
+				c.missingOrMoved(rule2, "the accepted connection is given the looked-up address", as, func(in ssa.Instruction) bool {
+					st, ok := in.(*ssa.Store)
+					if !ok {
+						return false
+					}
+					_, g, okf := fieldOfAddr(st.Addr)
+					return okf && g == addrF
+				}, "a store to SnowflakeClientConn.address", "RemoteAddr() of accepted connections is nil: the bridge is never told a client address")
 			}
 		}
 		if ra := p.Fn("server/lib", "(*SnowflakeClientConn).RemoteAddr"); ra != nil {
